@@ -470,15 +470,30 @@ class Func:
         for B in self.blocks.values():
             if not B.term or B.term.get("cls") not in ("DoStmt", "WhileStmt", "ForStmt", "IfStmt") or len(B.succs) != 2:
                 continue
-            if len(B.elems) != 1 or B.elems[0].cls != "BinaryOperator" or B.elems[0].op not in ("&&", "||"):
+            if not B.elems or B.elems[0].cls != "BinaryOperator" or B.elems[0].op not in ("&&", "||"):
                 continue
+            # the merged value may be negated before it is branched on: if (!(a && b)) -- each further element must be a `!` of the
+            # one before it
+            neg = 0
+            prev = B.elems[0]
+            plain = True
+            for x in B.elems[1:]:
+                inner = x.kid(0).strip() if (x.cls == "UnaryOperator" and x.op == "!" and x.kid(0) is not None) else None
+                if inner is not prev:
+                    plain = False
+                    break
+                neg += 1
+                prev = x
+            if not plain:
+                continue
+            t, fl = (B.succs[0], B.succs[1]) if neg % 2 == 0 else (B.succs[1], B.succs[0])
             for P in self.blocks.values():
                 if P is B or not P.term or P.term.get("cls") != "BinaryOperator" or P.term.get("op") not in ("&&", "||") or len(P.succs) != 2:
                     continue
                 if P.term["op"] == "&&" and P.succs[1] == B.id:
-                    P.succs[1] = B.succs[1]
+                    P.succs[1] = fl
                 elif P.term["op"] == "||" and P.succs[0] == B.id:
-                    P.succs[0] = B.succs[0]
+                    P.succs[0] = t
 
     def _restore_names(self):
         """A parameter or local that was merely renamed gets the name it has on the pinned tree back (sa/names.json): when
